@@ -152,7 +152,7 @@ def run_shard(spec, acc):
         for i in range(spec["n"]):
             if rnd.random() < 0.6:
                 seq = [rnd.choice(ARCH_VOCAB) for _ in range(rnd.randint(6, 12))]
-                seq = [("layer", rnd.choice(["A", "B", "C", "D"])) if s[0] == "layer" else s for s in seq]
+                seq = [("layer", rnd.choice(["A", "B", "C", "D", "", "a"])) if s[0] == "layer" else s for s in seq]
                 # continue after a rejected call as well: the builder must stay consistent
                 from pytestarch import LayeredArchitecture
 
